@@ -438,14 +438,15 @@ def run(ctx):
         return cmp_, n, path, v, origin, err, r, u
 
     # (comparator, keys, trace parts, string universe, with the recycling sequences)
-    # quick: the two pointer comparators over 6 keys (7 in thorough); int and char* always over 7;
-    # the boundary-character universes 1..3 of the string comparator without the recycling sequences
-    # (link handling does not depend on the comparator; universe 0 and the other comparators have them)
+    # quick: the two pointer comparators over 6 keys (7 in thorough); int and char* always over 7; the string
+    # comparator over universes 0, 1, 2 (thorough: 3 as well) without the recycling sequences (how set_insert
+    # treats the links of the node it is given does not depend on the comparator; int, void* and node-address
+    # keys have them; thorough: every exploration has them)
     if thorough:
         plan_bfs = [(c, NK, 8, 0, 1) for c in CMPS] + [("charp", NK, 8, u, 1) for u in (1, 2, 3)] + [("int", 8, 16, 0, 1)]
     else:
-        plan_bfs = [("int", NK, 6, 0, 1), ("charp", NK, 6, 0, 1), ("voidp", 6, 2, 0, 1), ("ptr", 6, 1, 0, 1)] \
-                   + [("charp", NK, 3, u, 0) for u in (1, 2, 3)]
+        plan_bfs = [("int", NK, 6, 0, 1), ("voidp", 6, 2, 0, 1), ("ptr", 6, 1, 0, 1)] \
+                   + [("charp", NK, 3, u, 0) for u in (0, 1, 2)]
     bfs_runs = [ex.submit(bfs_job, *a) for a in plan_bfs]
     vals = []
     real_trans = {}
